@@ -99,8 +99,8 @@ class Domain:
     def on_with_exit(self, st, item, exceptional, ctx):
         return [(FALL, st, None)]
 
-    def on_for(self, st, node):
-        """-> list of ('enter'|'exit', state)"""
+    def on_for(self, st, node, first=True):
+        """-> list of ('enter'|'exit', state); first = first evaluation of the loop head"""
         return [("enter", st), ("exit", st)]
 
     def raise_label(self, st, stmt, caught):
@@ -411,7 +411,7 @@ class Interp:
             enter, leave = set(), set()
             for s in new:
                 if is_for:
-                    for k, x in dom.on_for(s, st):
+                    for k, x in dom.on_for(s, st, it == 1):
                         if k == "enter":
                             enter.add(dom.invalidate(x, assigned_targets(st)))
                         else:
